@@ -312,6 +312,27 @@ func nilNilSearch(f *eng.Fn, g *eng.Graph, v *types.Var, start eng.Point, report
 				}
 			}
 		}
+		if cond != nil {
+			// a named condition (`c := v == nil && e == nil; if c {`) stands
+			// for its expression when it was evaluated in this block and
+			// nothing it mentions was assigned since
+			if r := resolveBool(f, cond); r != cond {
+				cond = nil
+				if cv := g.LocalVar(ast.Unparen(b.Nodes[len(b.Nodes)-1].(ast.Expr))); cv != nil {
+					if d := g.UniqueDef(cv, eng.Point{B: s.b, I: len(b.Nodes) - 1}); d != nil && d.At.B == s.b {
+						clean := true
+						for i := d.At.I + 1; i < len(b.Nodes)-1; i++ {
+							if len(g.DefsAtNode(b.Nodes[i])) > 0 {
+								clean = false
+							}
+						}
+						if clean {
+							cond = r
+						}
+					}
+				}
+			}
+		}
 		for si, succ := range b.Succs {
 			nf := facts
 			if cond != nil {
